@@ -152,6 +152,23 @@ def pinOf (it : Item) : Pin :=
 
 def pins (h : Handler) : List Pin := (bankItems h).map pinOf
 
+/-- golden pin on the ABSTRACT party / denomination texts (short, readable, few distinct values) -/
+structure APin where
+  op    : String
+  src   : String
+  dst   : String
+  denom : String
+  pos   : Bool
+  conds : List (Bool × Nat)
+  loop  : Bool
+  cache : Bool
+  deriving DecidableEq, Repr
+
+def apinOf (it : Item) : APin :=
+  ⟨it.op, it.srcA, it.dstA, it.denomA, it.conds.any (·.kind == "pos"), condSig it, it.inLoop, it.cache⟩
+
+def apins (h : Handler) : List APin := (bankItems h).map apinOf
+
 /-- the same with parties and denomination mapped to ROLES by a reviewed (pattern) table -/
 structure RPin (R D : Type) where
   kind  : BKind
